@@ -20,6 +20,7 @@ import (
 	"context"
 	"encoding/json"
 	"errors"
+	"expvar"
 	"fmt"
 	"io"
 	"log"
@@ -30,6 +31,7 @@ import (
 	"sort"
 	"strconv"
 	"strings"
+	"sync"
 	"testing"
 	"time"
 
@@ -44,6 +46,9 @@ type c37Round struct {
 	Mid       []int  `json:"mid,omitempty"`        // writes landing after LastIndex returned, before the data is copied (gaps)
 	ProvErr   bool   `json:"prov_err,omitempty"`   // Provide fails
 	ProvFlaky int    `json:"prov_flaky,omitempty"` // store mode: 1 = the first attempt of Provider.Provide fails early on a failing writer; 2 = it fails on its last bytes and a write that shrinks the copy lands before the retry
+	Gate      int    `json:"gate,omitempty"`       // store mode, non-vacuum: another holder has the store's snapshot gate when the round starts and keeps it until this many Provide attempts have run into it
+	GateKind  string `json:"gate_kind,omitempty"`  // "" = a user Store.Backup streaming to a stalled client; "snapshot" = user Store.Snapshot calls racing the round (no gate conflict possible: raft serialises snapshots)
+	Count     bool   `json:"count,omitempty"`      // store mode: count Provide's attempts through a wrapped destination (disables Backup's *os.File fast path)
 	IDErr     bool   `json:"id_err,omitempty"`     // CurrentID fails
 	UpFail    string `json:"up_fail,omitempty"`    // "" | "before" (fails without reading) | "after" (fails after reading everything)
 }
@@ -307,6 +312,10 @@ type c37World struct {
 	midIdx []uint64
 	werr   error
 
+	holder    *c37Holder // store mode: the other holder of the snapshot gate in this round
+	attempts  int        // Provide attempts seen in this round (0 = Provide not reached or failed outright; 1/99 by duration if not counted)
+	failKinds []string   // what the failed attempts of this round ran into ("gate", "fail")
+
 	remoteID   string
 	remoteData []byte
 }
@@ -323,9 +332,99 @@ func (w *c37World) decode(b []byte) ([]uint64, error) {
 	return c37Decode(b)
 }
 
+// c37Holder is an ordinary user backup (Store.Backup, binary, no vacuum) whose client has stopped
+// reading: Backup holds the store's snapshot gate while it copies the database file.
+type c37Holder struct {
+	started chan struct{}
+	release chan struct{}
+	done    chan error
+	relOnce sync.Once
+	stOnce  sync.Once
+}
+
+func (h *c37Holder) Write(p []byte) (int, error) {
+	h.stOnce.Do(func() { close(h.started) })
+	<-h.release
+	return len(p), nil
+}
+func (h *c37Holder) Release() { h.relOnce.Do(func() { close(h.release) }) }
+
+func c37StartHolder(s *store.Store) (*c37Holder, error) {
+	h := &c37Holder{started: make(chan struct{}), release: make(chan struct{}), done: make(chan error, 1)}
+	go func() {
+		h.done <- s.Backup(context.Background(), &proto.BackupRequest{Format: proto.BackupRequest_BACKUP_REQUEST_FORMAT_BINARY}, h)
+	}()
+	select {
+	case <-h.started:
+		return h, nil
+	case err := <-h.done:
+		return nil, fmt.Errorf("user backup ended before it wrote anything: %v", err)
+	case <-time.After(15 * time.Second):
+		h.Release()
+		return nil, errors.New("user backup did not start")
+	}
+}
+
+func c37SnapFails() int64 {
+	m, ok := expvar.Get("store").(*expvar.Map)
+	if !ok {
+		return -1
+	}
+	v, ok := m.Get("num_user_snapshots_failed").(*expvar.Int)
+	if !ok {
+		return -1
+	}
+	return v.Value()
+}
+
+// c37CountingWriter counts how often Provide starts over on its destination (one Seek to 0 per attempt)
+type c37CountingWriter struct {
+	w     io.WriteSeeker
+	seeks int
+}
+
+func (c *c37CountingWriter) Write(p []byte) (int, error) { return c.w.Write(p) }
+func (c *c37CountingWriter) Seek(off int64, wh int) (int64, error) {
+	if off == 0 && wh == io.SeekStart {
+		c.seeks++
+	}
+	return c.w.Seek(off, wh)
+}
+func (c *c37CountingWriter) Truncate(size int64) error {
+	if t, ok := c.w.(interface{ Truncate(int64) error }); ok {
+		return t.Truncate(size)
+	}
+	return errors.New("cannot truncate")
+}
+
+func (w *c37World) gated() bool {
+	return w.real != nil && !w.in.Vacuum && w.cur.Gate > 0 && w.cur.GateKind == ""
+}
+
+// endRound lets go of whatever the round's other actors still hold
+func (w *c37World) endRound() {
+	if w.holder != nil {
+		w.holder.Release()
+		select {
+		case <-w.holder.done:
+		case <-time.After(20 * time.Second):
+			w.werr = errors.New("user backup did not finish")
+		}
+		w.holder = nil
+	}
+}
+
 // DataProvider
 func (w *c37World) LastIndex() (uint64, error) {
 	w.calls = append(w.calls, c37Call{Kind: "last"})
+	if w.gated() && w.holder == nil {
+		// the user backup takes the gate first; the writes below then exist only in the WAL
+		h, err := c37StartHolder(w.st.s)
+		if err != nil {
+			w.werr = err
+		}
+		w.holder = h
+	}
 	for _, g := range w.cur.Pre {
 		i, err := w.db.write(g)
 		if err != nil {
@@ -450,19 +549,90 @@ func (w *c37World) Provide(dst io.WriteSeeker) error {
 		return errC37
 	}
 	if w.real != nil {
-		if w.cur.ProvFlaky == 2 {
-			return w.provideLateFail(dst)
-		}
-		if w.cur.ProvFlaky > 0 {
-			left := w.cur.ProvFlaky
-			return w.real.Provide(&c37FlakyWriter{w: dst, failLeft: &left})
-		}
-		return w.real.Provide(dst)
+		return w.provideReal(dst)
 	}
+	w.attempts = 1
 	if _, err := dst.Seek(0, io.SeekStart); err != nil {
 		return err
 	}
 	_, err := dst.Write(c37Encode(w.db.changes()))
+	return err
+}
+
+func (w *c37World) provideReal(dst io.WriteSeeker) error {
+	t0 := time.Now()
+	var cw *c37CountingWriter
+	if w.cur.Count || w.cur.Gate > 0 || w.cur.ProvFlaky > 0 {
+		cw = &c37CountingWriter{w: dst}
+		dst = cw
+	}
+	base := c37SnapFails()
+	stop := make(chan struct{})
+	watch := make(chan struct{})
+	go func() {
+		defer close(watch)
+		switch {
+		case w.holder != nil:
+			// keep the gate until the wanted number of attempts has run into it (or, if the
+			// code never fails on it, for 4 s - less than Backup's 10 s wait for the gate)
+			deadline := time.Now().Add(4 * time.Second)
+			for c37SnapFails() < base+int64(w.cur.Gate) && time.Now().Before(deadline) {
+				select {
+				case <-stop:
+					w.holder.Release()
+					return
+				case <-time.After(2 * time.Millisecond):
+				}
+			}
+			w.holder.Release()
+		case w.real != nil && w.cur.Gate > 0 && w.cur.GateKind == "snapshot":
+			for i := 0; i < 2*w.cur.Gate; i++ {
+				w.st.s.Snapshot(0)
+			}
+		}
+	}()
+	var err error
+	flakyFailed := 0
+	switch {
+	case w.cur.ProvFlaky == 2:
+		err = w.provideLateFail(dst)
+		flakyFailed = 1
+	case w.cur.ProvFlaky > 0:
+		left := w.cur.ProvFlaky
+		err = w.real.Provide(&c37FlakyWriter{w: dst, failLeft: &left})
+		flakyFailed = w.cur.ProvFlaky - left
+	default:
+		err = w.real.Provide(dst)
+	}
+	close(stop)
+	<-watch
+	gateFails := 0
+	if w.holder != nil && base >= 0 {
+		gateFails = int(c37SnapFails() - base)
+	}
+	switch {
+	case cw != nil:
+		w.attempts = cw.seeks
+		if w.cur.ProvFlaky == 2 {
+			// the clean copy taken first to learn the size went to another destination
+		}
+	case time.Since(t0) < 400*time.Millisecond:
+		w.attempts = 1
+	default:
+		w.attempts = 99 // not counted, but it did wait for a retry
+	}
+	for i := 0; i < gateFails; i++ {
+		w.failKinds = append(w.failKinds, "gate")
+	}
+	for i := 0; i < flakyFailed; i++ {
+		w.failKinds = append(w.failKinds, "fail")
+	}
+	if w.cur.GateKind == "snapshot" && cw != nil {
+		// racing snapshots may make an attempt find "no WAL to snapshot": whatever failed, failed
+		for len(w.failKinds) < cw.seeks-1 {
+			w.failKinds = append(w.failKinds, "fail")
+		}
+	}
 	return err
 }
 
@@ -513,6 +683,7 @@ type c37RoundObs struct {
 	Last       uint64
 	RemoteID   string
 	RemoteData []uint64
+	Attempts   int
 }
 
 // resolved events: what the model is told
@@ -520,6 +691,7 @@ type c37REvent struct {
 	Write uint64 // index, if a write
 	Round *c37Round
 	Mid   []uint64
+	Fails []string // what the failed Provide attempts ran into
 }
 
 func c37Canon(id string) (uint64, bool) {
@@ -631,8 +803,10 @@ func c37RunHistory(in c37Input, st *c37Store) (out c37Outcome) {
 		}
 		r := *ev.R
 		w.cur, w.calls, w.preIdx, w.midIdx, w.werr = &r, nil, nil, nil, nil
+		w.attempts, w.failKinds = 0, nil
 		beforeLast := u.lastIndex
 		err := u.upload(context.Background())
+		w.endRound()
 		if w.werr != nil {
 			out.inconcl = fmt.Sprintf("event %d: write failed: %v", ei, w.werr)
 			return
@@ -641,9 +815,9 @@ func c37RunHistory(in c37Input, st *c37Store) (out c37Outcome) {
 			revs = append(revs, c37REvent{Write: i})
 		}
 		rr := *ev.R
-		revs = append(revs, c37REvent{Round: &rr, Mid: w.midIdx})
+		revs = append(revs, c37REvent{Round: &rr, Mid: w.midIdx, Fails: w.failKinds})
 		rd, derr := w.decode(w.remoteData)
-		ob := c37RoundObs{Calls: w.calls, Err: err != nil, Last: u.lastIndex, RemoteID: w.remoteID, RemoteData: rd}
+		ob := c37RoundObs{Calls: w.calls, Err: err != nil, Last: u.lastIndex, RemoteID: w.remoteID, RemoteData: rd, Attempts: w.attempts}
 		robs = append(robs, ob)
 
 		// ---- the property, for this round
@@ -735,6 +909,14 @@ func c37RunHistory(in c37Input, st *c37Store) (out c37Outcome) {
 		if r.LiErr || r.ProvErr {
 			out.tags["provider-failed"] = true
 		}
+		for _, f := range w.failKinds {
+			if f == "gate" {
+				out.tags["provide-attempt-ran-into-held-snapshot-gate"] = true
+			}
+		}
+		if r.Gate > 0 && r.GateKind == "snapshot" {
+			out.tags["user-snapshots-racing-the-round"] = true
+		}
 		lastRoundClean = err == nil && len(w.midIdx) == 0
 	}
 	// ---- the property, for the history: ends with a successful round and no write since
@@ -795,8 +977,12 @@ func c37Coq(db0 []uint64, rid0 string, rdata0 []uint64, evs []c37REvent, obs []c
 			continue
 		}
 		r := e.Round
-		es[i] = fmt.Sprintf("EvRound {| e_li_err := %s; e_mid := %s; e_prov_err := %s; e_id_err := %s; e_up_fail := %s |}",
-			coqBool(r.LiErr), c37NList(e.Mid), coqBool(r.ProvErr), coqBool(r.IDErr), coqBool(r.UpFail != ""))
+		atts := make([]string, len(e.Fails))
+		for k, f := range e.Fails {
+			atts[k] = map[string]string{"gate": "AGate", "fail": "AFail"}[f]
+		}
+		es[i] = fmt.Sprintf("EvRound {| e_li_err := %s; e_mid := %s; e_prov_err := %s; e_attempts := %s; e_id_err := %s; e_up_fail := %s |}",
+			coqBool(r.LiErr), c37NList(e.Mid), coqBool(r.ProvErr), coqList(atts), coqBool(r.IDErr), coqBool(r.UpFail != ""))
 	}
 	os := make([]string, len(obs))
 	for i, o := range obs {
@@ -814,8 +1000,8 @@ func c37Coq(db0 []uint64, rid0 string, rdata0 []uint64, evs []c37REvent, obs []c
 				cs[j] = fmt.Sprintf("CUpload %d %s", n, c37NList(c.Content))
 			}
 		}
-		os[i] = fmt.Sprintf("{| r_calls := %s; r_err := %s; r_last := %d; r_rid := %s; r_rdata := %s |}",
-			coqList(cs), coqBool(o.Err), o.Last, c37OptID(o.RemoteID), c37NList(o.RemoteData))
+		os[i] = fmt.Sprintf("{| r_calls := %s; r_err := %s; r_last := %d; r_rid := %s; r_rdata := %s; r_attempts := %d |}",
+			coqList(cs), coqBool(o.Err), o.Last, c37OptID(o.RemoteID), c37NList(o.RemoteData), o.Attempts)
 	}
 	return fmt.Sprintf("{| k_init := {| w_last := 0; w_db := %s; w_rid := %s; w_rdata := %s; w_silent := 0; w_rsilent := 0 |}; k_events := %s; k_obs := %s |}",
 		c37NList(db0), c37OptID(rid0), c37NList(rdata0), coqList(es), coqList(os))
@@ -994,9 +1180,30 @@ func c37GenStore(rng *rand.Rand, k int) c37Input {
 		in.RemoteID = "="
 	}
 	in.Events = c37GenEvents(rng, "store", 8)
+	gates := 0
 	for i := range in.Events {
-		if r := in.Events[i].R; r != nil && !r.ProvErr && !r.LiErr && rng.Intn(25) == 0 {
+		r := in.Events[i].R
+		if r == nil || r.ProvErr || r.LiErr {
+			continue
+		}
+		switch x := rng.Intn(50); {
+		case x < 2:
 			r.ProvFlaky = 1 + rng.Intn(2)
+		case x < 10 && !in.Vacuum && gates < 2:
+			// another holder of the snapshot gate, and a write that is only in the WAL
+			gates++
+			r.Gate = 1
+			if rng.Intn(4) == 0 {
+				r.Gate = 2
+			}
+			if rng.Intn(5) == 0 {
+				r.GateKind = "snapshot"
+			}
+			if len(r.Pre) == 0 {
+				r.Pre = []int{1}
+			}
+		case x < 25:
+			r.Count = true
 		}
 	}
 	return in
@@ -1070,7 +1277,8 @@ func TestVerif_C37(t *testing.T) {
 	// store mode: hand-picked first, then generated; all four provider configurations
 	for k := 0; k < 4; k++ {
 		w.Emit(c37Case(c37Input{Mode: "store", Vacuum: k&1 != 0, Compress: k&2 != 0, RemoteID: []string{"", "="}[k%2], Events: []c37Event{
-			{W: 1}, {R: &c37Round{Pre: []int{1}, Mid: []int{1, 1}, UpFail: "after"}}, {R: &c37Round{Mid: []int{1}}}, {R: &c37Round{}}, {R: &c37Round{}}, {W: 1}, {R: &c37Round{ProvFlaky: 1 + k%2}}, {R: &c37Round{}}}}, getStore()))
+			{W: 1}, {R: &c37Round{Pre: []int{1}, Mid: []int{1, 1}, UpFail: "after"}}, {R: &c37Round{Mid: []int{1}}}, {R: &c37Round{}}, {R: &c37Round{}}, {W: 1}, {R: &c37Round{ProvFlaky: 1 + k%2}}, {R: &c37Round{}},
+			{R: &c37Round{Pre: []int{1}, Gate: 1 + k/2}}, {R: &c37Round{}}, {W: 1}, {R: &c37Round{Pre: []int{1}, Mid: []int{1}, Gate: 1, GateKind: []string{"", "snapshot"}[k/2], Count: true}}, {R: &c37Round{Count: true}}}}, getStore()))
 	}
 	for i := 0; i < ns; i++ {
 		w.Emit(c37Case(c37GenStore(rng, i), getStore()))
